@@ -12,7 +12,7 @@ from . import boot
 from .core import (Agg, HarnessError, Violation, digest_obj, hexk, load_known_findings, run_pool, run_rng,
                    write_evidence, write_replay)
 from .gen import base_pool, draw_seed64
-from .procsim import PERSONALITIES, simulate
+from .procsim import EXC_NAMES, PERSONALITIES, simulate
 
 U32MAX = (1 << 32) - 1
 
@@ -46,6 +46,29 @@ def gen_desc(rng, prop):
         pairs = [[hexk(rng.choice(pool)), rng.choice([1, 1, 1, 2, 3, 5, 50])] for _ in range(rng.randrange(0, 7))]
         items.append([i, pairs, rng.choice([0, 1, 1, 2, 5])])
     d["items"] = items
+    # "any list of items": some runs pass arbitrary picklable objects instead of the harness
+    # tuples - falsy values, strings/ints harvested from the tree under test (sentinels)
+    if rng.random() < 0.3 and items:
+        from .consts import harvest
+
+        cs = harvest(boot.SK)
+        cands = [{"t": "str", "v": ""}, {"t": "int", "v": 0}, {"t": "float", "v": 0.0}, {"t": "bool", "v": False},
+                 {"t": "list", "v": []}, {"t": "dict", "v": {}}, {"t": "tuple", "v": []}, {"t": "bytes", "v": ""},
+                 {"t": "int", "v": -1}, {"t": "str", "v": "None"}, {"t": "int", "v": 1}]
+        cands += [{"t": "str", "v": x} for x in cs["strs"]] * 2
+        cands += [{"t": "bytes", "v": x.hex()} for x in cs["bytes"]]
+        cands += [{"t": "int", "v": x} for x in cs["ints"][:40]]
+        rng.shuffle(cands)
+        seen, objs = set(), {}
+        for it in items:
+            if rng.random() < 0.5 and cands:
+                spec = cands.pop()
+                k = (spec["t"], repr(spec["v"]))
+                if k not in seen and not (spec["t"] == "bool" and ("int", repr(int(spec["v"]))) in seen) \
+                        and not (spec["t"] in ("int", "float") and any(kk[1] in (repr(spec["v"]), repr(float(spec["v"])), repr(int(spec["v"]))) for kk in seen)):
+                    seen.add(k)
+                    objs[str(it[0])] = spec
+        d["item_objs"] = objs
     d["personality"] = rng.choice(PERSONALITIES)
     d["victim"] = f"worker{rng.randrange(d['n_workers'])}"
     d["preempt"] = rng.random() < 0.8
@@ -72,7 +95,8 @@ def gen_desc(rng, prop):
         if mode == "raise":
             for it in items[:5]:
                 if rng.random() < 0.45:
-                    d["plan"][str(it[0])] = {"kind": "raise", "phase": rng.choice(["before", "mid", "after"])}
+                    d["plan"][str(it[0])] = {"kind": "raise", "phase": rng.choice(["before", "mid", "after"]),
+                                             "exc": rng.choice(EXC_NAMES) if rng.random() < 0.7 else "RuntimeError"}
         else:
             how = rng.choice(["item", "item", "take", "pill"])
             # os._exit codes and deaths by signal (-9 is what the kernel OOM killer leaves)
